@@ -1715,7 +1715,10 @@ class RTCSctpTransport(AsyncIOEventEmitter):
         if channel.readyState not in ["closing", "closed"]:
             channel._setReadyState("closing")
 
-            if self._association_state == self.State.ESTABLISHED:
+            if (
+                self._association_state == self.State.ESTABLISHED
+                and channel.id is not None
+            ):
                 # queue a stream reset
                 self._reconfig_queue.append(channel.id)
                 if len(self._reconfig_queue) == 1:
@@ -1877,7 +1880,8 @@ class RTCSctpTransport(AsyncIOEventEmitter):
             elif msg_type == DATA_CHANNEL_ACK:
                 assert stream_id in self._data_channels
                 channel = self._data_channels[stream_id]
-                channel._setReadyState("open")
+                if channel.readyState == "connecting":
+                    channel._setReadyState("open")
         elif pp_id == WEBRTC_STRING and stream_id in self._data_channels:
             # emit message
             self._data_channels[stream_id].emit("message", data.decode("utf8"))
